@@ -64,6 +64,13 @@ func profileFor(check, tier, variant string) *CheckDef {
 			d.MaxOps = 16
 			d.ForkDepth = 3
 		}
+	case "C11":
+		d.MinClients, d.MaxClients = 1, 3
+		d.MinOps, d.MaxOps = 6, 22
+		d.FSOnly, d.Readers, d.DirInv, d.AckedOnly = true, true, true, true
+		if thorough {
+			d.MaxOps = 45
+		}
 	case "C12":
 		d.MinClients, d.MaxClients = 1, 2
 		d.MinOps, d.MaxOps = 3, 12
